@@ -47,6 +47,12 @@ where
         // Ensure rumor ID
         rumor.ensure_id();
 
+        // A caller-supplied id must be the hash of the rumor: receivers verify it, and the
+        // local copy is stored under it
+        rumor
+            .verify_id()
+            .map_err(|_e| Error::Message("Rumor id does not match its content".to_string()))?;
+
         // Serialize as JSON
         let json: String = rumor.as_json();
 
